@@ -8,8 +8,7 @@ use sim_core::{Fingerprint, Rng};
 
 use crate::alloc::CEILING;
 use crate::exec::{self, Job, Obs, Outcome};
-use crate::faults::{self, Fault};
-use crate::findings;
+use crate::faults::{self, Fault, boundary_values};
 use crate::honest::{HonestCfg, HonestSet};
 
 pub const PROPERTY: &str = "C05";
@@ -180,21 +179,6 @@ impl<'a> Exec<'a> {
         spec.src == spec.dst && input == self.set.encodings[spec.src].bytes.as_slice()
     }
 
-    /// Counterfactual attribution: see findings.rs.
-    fn attribute(&self, spec: &CaseSpec, input: &[u8], j: &Judged) -> Option<&'static str> {
-        let entry = &self.set.encodings[spec.dst].entries[spec.entry];
-        let site = findings::finding_by_site(j.clause, &j.location)?;
-        let (neutral, hits) = findings::neutralise(entry.route, input)?;
-        if !hits.contains(&site) {
-            return None;
-        }
-        let obs = self.decode_one(spec, &neutral);
-        match judge(false, neutral.len(), &obs) {
-            None => Some(site),
-            Some(_) => None,
-        }
-    }
-
     /// Shrink the fault list, then the input (shortest prefix with the same clause and site).
     fn minimise(&self, spec: &CaseSpec, j: &Judged) -> (CaseSpec, Vec<u8>) {
         let same = |obs: &Obs, len: usize, fault_free: bool| {
@@ -303,6 +287,18 @@ fn enumerate_primary(set: &HonestSet, e: usize) -> Vec<Vec<Fault>> {
         }]);
         off += 16;
     }
+    // every located length / count / size field overwritten by every boundary value of its width
+    for w in &enc.words {
+        for val in boundary_values(w.width) {
+            out.push(vec![Fault::Word {
+                off: w.off,
+                width: w.width,
+                val,
+                enc: w.enc,
+                hex: w.hex,
+            }]);
+        }
+    }
     out
 }
 
@@ -316,6 +312,33 @@ fn random_fault(rng: &mut Rng, set: &HonestSet, src: usize, allow_structural: bo
             rng.index(len)
         }
     };
+    if !enc.words.is_empty() && rng.chance(0.3) {
+        // word overwrite of a located field: boundary value, or (1 in 4) a stale word taken
+        // from any honest encoding of the run
+        let w = *rng.pick(&enc.words);
+        let values = boundary_values(w.width);
+        let val = if rng.chance(0.75) {
+            *rng.pick(&values)
+        } else {
+            // stale content: the word is read from a random place of a random honest encoding
+            let other = &set.encodings[rng.index(set.encodings.len())].bytes;
+            let at = rng.index(other.len().max(1));
+            let mut word = [0u8; 8];
+            for (i, b) in other.iter().skip(at).take(8).enumerate() {
+                word[i] = *b;
+            }
+            let bits = (w.width * 8).min(64) as u32;
+            let any = u64::from_be_bytes(word);
+            if bits == 64 { any } else { any >> (64 - bits) }
+        };
+        return Fault::Word {
+            off: w.off,
+            width: w.width,
+            val,
+            enc: w.enc,
+            hex: w.hex,
+        };
+    }
     let w: &[u32] = if allow_structural {
         &[30, 15, 12, 12, 8, 14, 9]
     } else {
@@ -556,7 +579,8 @@ impl WireEngine {
                         continue;
                     }
                     report.hit(&format!("violating_cases_{}", j.clause));
-                    let finding = ex.attribute(spec, input, &j).map(|s| s.to_string());
+                    // no finding is open for this property: nothing is attributed, every violation fails the check
+                    let finding: Option<String> = None;
                     let key = (j.clause.to_string(), finding.clone(), j.location.clone());
                     if let Some(g) = groups.get_mut(&key) {
                         g.0 += 1;
@@ -627,7 +651,7 @@ impl WireEngine {
                     doc["entry"].as_str().unwrap_or(""),
                     &doc["input_hex"].as_str().unwrap_or("")[..doc["input_hex"].as_str().unwrap_or("").len().min(96)],
                     if doc["input_hex"].as_str().unwrap_or("").len() > 96 { "..." } else { "" },
-                    finding.as_deref().map(|f| format!(" [{}]", findings::describe(f))).unwrap_or_default(),
+                    "",
                 ),
                 finding: finding.clone(),
             });
@@ -758,7 +782,7 @@ impl Engine for WireEngine {
                     obs.stats.max_request
                 );
                 if let Some(j) = judge(fault_free, input.len(), &obs) {
-                    let finding = ex.attribute(&spec, &input, &j).map(|s| s.to_string());
+                    let finding: Option<String> = None;
                     report.violations.push(Violation {
                         property: PROPERTY.into(),
                         clause: j.clause.into(),
